@@ -84,7 +84,7 @@ def run(repo, filt='', seed=0, timeout=1500):
 
 # drivers of other properties that also decide sentences of this one (they emit witnesses under both ids)
 RELATED = {'C10': ['c08_'], 'C08': ['c10_push', 'c10_dis', 'c03_config'], 'C05': ['c08_'], 'C17': ['c03_gas', 'c03_config'], 'C03': ['c14_named', 'c14_random', 'c17_gas'], 'C01': ['c10_dis', 'c19_', 'c06_', 'c09_', 'c12_out_of_range'],
-           'C18': ['c03_config'], 'C13': ['c03_config']}
+           'C18': ['c03_config'], 'C13': ['c03_config'], 'C07': ['c08_valid_targets']}
 
 
 def for_property(pid, repo, seed=0):
